@@ -274,7 +274,29 @@ def run(ctx, rep):
     if "compatible" not in dec_f.params:
         raise AnalysisError("decoder has no 'compatible' parameter")
     check_flag(ctx, rep, dec_f, "compatible", mod, set())
-    rep.floor("M5", 3)
+    # every call of the per-token rewrite in the decoder region is guarded by the flag
+    n_calls = 0
+    for q in ctx.cg.region(dec_f):
+        g = ctx.db.funcs[q]
+        pm = {}
+        for n in own_nodes(g.node):
+            for c in ast.iter_child_nodes(n):
+                pm[id(c)] = n
+        for st in ctx.cg.sites(g):
+            if mod in st.callees and g is not mod:
+                n_calls += 1
+                cur = st.node
+                guarded = False
+                while id(cur) in pm:
+                    p_ = pm[id(cur)]
+                    if isinstance(p_, ast.If) and isinstance(p_.test, ast.Name) and any(cur is x or any(y is cur for y in ast.walk(x)) for x in p_.body):
+                        guarded = guarded or (p_.test.id in g.params)
+                    cur = p_
+                rep.ob("M5", guarded, st.node, g, construct="call of modernize_symbol", how="executed only under the compatible flag",
+                       witness=None if guarded else "legacy symbols are rewritten even without compatible=True", key="rewrite-guarded/" + g.name, nontrivial=True)
+    if not n_calls:
+        rep.ob("M5", False, dec_f.node, dec_f, construct="per-token rewrite", witness="modernize_symbol is never applied: compatible=True has no effect", key="rewrite-missing")
+    rep.floor("M5", 2)
     rep.analysed.update({"legacy_entries": len(got), "dispatch_cases": kinds})
 
 
